@@ -517,7 +517,7 @@ class KP:
 class KGen:
     """code generation into the monad of Model/KernelM.v"""
     TRANSPARENT = {'buffer', 'inner', 'inner_mut'}
-    def __init__(s): s.n = 0
+    def __init__(s): s.n = 0; s.sync_name = 'g_sync_index'
     def fresh(s): s.n += 1; return f'v{s.n}'
     def bindv(s, rhs, k):
         v = s.fresh(); return f'{v} <- {rhs} ;; ' + k(v)
@@ -525,7 +525,7 @@ class KGen:
         kind = e[0]
         if kind == 'num': return k(e[1])
         if kind == 'var':
-            if e[1] == 'self': return k('self')
+            if e[1] == 'self': return k('tt')
             return k(e[1])
         if kind == 'field':
             f = e[2]
@@ -549,6 +549,7 @@ class KGen:
             if name == 'set_cached_avail': return s.expr(args[0], lambda a: f'set_cached {a} ;;; ' + k('tt'))
             if name == 'set_atomic_index': return s.expr(args[0], lambda a: f'publish {a} ;;; ' + k('tt'))
             if name == 'advance_local': return s.expr(args[0], lambda a: f'g_advance_local E {a} ;;; ' + k('tt'))
+            if name == 'sync_index' and not args: return f'{s.sync_name} E ;;; ' + k('tt')
             raise SyntaxError('method ' + name)
         if kind == 'cmp':
             op = {'<': 'Nat.ltb', '<=': 'Nat.leb', '>=': 'geb', '>': 'gtb', '==': 'Nat.eqb'}[e[1]]
@@ -593,6 +594,8 @@ KERNELS = [  # (Coq name, file, fn, nth, extra Coq parameters, result type)
     ('g_go_back_async', 'iterators/async_iterators/detached.rs', 'go_back', 0, '', 'unit'),
     ('g_sync_index_async', 'iterators/async_iterators/detached.rs', 'sync_index', 0, '', 'unit'),
     ('g_dadvance_async', 'iterators/async_iterators/detached.rs', 'advance', 0, '', 'unit'),
+    ('g_attach', 'iterators/sync_iterators/detached.rs', 'attach', 0, '', 'unit'),
+    ('g_attach_async', 'iterators/async_iterators/detached.rs', 'attach', 0, '', 'unit'),
 ]
 
 def extract_kernels():
@@ -600,7 +603,9 @@ def extract_kernels():
     for name, f, fn, nth, extra, ty in KERNELS:
         try:
             params, body = fn_src(os.path.join(REPO, 'src', f), fn, nth)
-            code = KGen().block(KP(klex(body)).block(None))
+            kg = KGen()
+            if name.endswith('_async'): kg.sync_name = 'g_sync_index_async'
+            code = kg.block(KP(klex(body)).block(None))
             ps = ' '.join(f'({q} : nat)' for q in params)
             out.append(f'(* {f} :: {fn} *)\nDefinition {name} (E : env) {extra} {ps} : M {ty} :=\n  {code}.\n')
         except (SyntaxError, ValueError, IndexError) as ex:
